@@ -1522,6 +1522,7 @@ class StateEngine(object):
             """
             unrecoverable = (error_type == "States.Runtime" or
                              error_type == "States.ExecutionTimeout" or
+                             error_type == "States.ExecutionHistoryLimitExceeded" or
                              error_type == "Task.Terminated")
 
             retry = state.get("Retry")
